@@ -26,7 +26,9 @@ const (
 
 func alphabet(types []string) []model.Op {
 	var a []model.Op
-	a = append(a, model.Op{K: "regnode", N: "f", NT: fmtT}, model.Op{K: "regnode", N: "g", NT: fmtT}, model.Op{K: "regnode", N: "s", NT: sinkT})
+	// the three ids also cover the node shapes: f is a Closer+Unwrapper wrapper, g an Unwrapper-only wrapper,
+	// s an uncomparable value node
+	a = append(a, model.Op{K: "regnode", N: "f", NT: fmtT, Shape: 2}, model.Op{K: "regnode", N: "g", NT: fmtT, Shape: 1}, model.Op{K: "regnode", N: "s", NT: sinkT, Shape: 3})
 	for _, et := range types {
 		for _, p := range []string{"p", "q"} {
 			for _, ids := range [][]string{{"f", "s"}, {"g", "s"}, {"f", "f", "s"}} {
@@ -176,7 +178,8 @@ func TestC06Random(t *testing.T) {
 		case 0:
 			id := rapid.SampledFrom(nodeIDs).Draw(t, "n")
 			return model.Op{K: "regnode", N: id, NT: typeOf[id], CloseErr: rapid.IntRange(0, 5).Draw(t, "closeErr") == 0,
-				Pol: rapid.SampledFrom([]int{0, 0, 0, 1, 2}).Draw(t, "pol")}
+				Pol: rapid.SampledFrom([]int{0, 0, 0, 1, 2}).Draw(t, "pol"), Shape: rapid.SampledFrom([]int{0, 0, 0, 1, 2, 3}).Draw(t, "shape"),
+				Reuse: rapid.IntRange(0, 6).Draw(t, "reuse") == 0}
 		case 1:
 			inner := rapid.SliceOfN(rapid.SampledFrom([]string{"h", "h", "f", "g", "s"}), 0, 2).Draw(t, "inner")
 			ids := append(inner, rapid.SampledFrom([]string{"f", "g", "f", "g", "h"}).Draw(t, "fmt"), rapid.SampledFrom([]string{"s", "u"}).Draw(t, "sink"))
@@ -185,15 +188,15 @@ func TestC06Random(t *testing.T) {
 		case 2:
 			return model.Op{K: "rmpipe", ET: rapid.SampledFrom(ets).Draw(t, "et"), P: rapid.SampledFrom(pids).Draw(t, "p")}
 		case 3:
-			return model.Op{K: "rpan", ET: rapid.SampledFrom(ets).Draw(t, "et"), P: rapid.SampledFrom(pids).Draw(t, "p")}
+			return model.Op{K: "rpan", ET: rapid.SampledFrom(ets).Draw(t, "et"), P: rapid.SampledFrom(pids).Draw(t, "p"), CtxDone: rapid.IntRange(0, 4).Draw(t, "ctxDone") == 0}
 		default:
-			return model.Op{K: "rmnode", N: rapid.SampledFrom(nodeIDs).Draw(t, "n")}
+			return model.Op{K: "rmnode", N: rapid.SampledFrom(nodeIDs).Draw(t, "n"), CtxDone: rapid.IntRange(0, 4).Draw(t, "ctxDone") == 0}
 		}
 	})
 	rapid.Check(t, func(t *rapid.T) {
 		var pre []model.Op
 		for _, id := range nodeIDs {
-			pre = append(pre, model.Op{K: "regnode", N: id, NT: typeOf[id]})
+			pre = append(pre, model.Op{K: "regnode", N: id, NT: typeOf[id], Shape: rapid.SampledFrom([]int{0, 0, 1, 2, 3}).Draw(t, "preShape-"+id)})
 		}
 		ops := append(pre, rapid.SliceOfN(opGen, 1, maxOps).Draw(t, "ops")...)
 		msg, c := runSeq(ops, ets, nodeIDs, true)
